@@ -378,7 +378,7 @@ theorem C12_gen_genbank_literals :
     Gen.C12.locKeywords = ["join", "order", "complement"] ∧ Gen.C12.locSeparators = ["..", ".", "^"] ∧
     Gen.C12.locPrintLiterals = ["join(", ")", "<", ">", "complement(", ")", ",", ".", "^", ".."] ∧
     Gen.C12.gbLimits = [12, 10] ∧ Gen.C12.gbNameColumn = 12 ∧ Gen.C12.gbHeaderPad = 13 ∧ Gen.C12.gbSliceWidths = [0, 2, 12] ∧
-    Gen.C12.gbTerminator = "//" ∧ Gen.C12.gbTerminator.toList = gbTerminator ∧
+    Gen.C12.gbTerminator = "//" ∧ Gen.C12.gbTerminator.toList = gbTerm ∧
     (fmt9 5).length = 9 ∧
     gbToLines (List.replicate Gen.C12.gbNameColumn 'A') ["x".toList] [] = .ok [List.replicate Gen.C12.gbNameColumn 'A' ++ "x".toList] ∧
     gbToLines (List.replicate (Gen.C12.gbNameColumn + 1) 'A') ["x".toList] [] = .error .valueError := by
